@@ -150,6 +150,28 @@ INT_MODELS = [(r"^<[iu](?:8|16|32|64|128|size) as (?:std::convert::)?From<[a-z0-
 MODEL_DOC[INT_MODELS[0][0]] = "<int as From<smaller int | bool>>::from widens (zero/sign extension)"
 
 
+def strip_generics(path):
+    """remove every `::<...>` group (balanced angle brackets; `->` inside fn types is not a bracket)"""
+    out, i, n = [], 0, len(path)
+    while i < n:
+        if path.startswith("::<", i):
+            depth, j = 0, i + 2
+            while j < n:
+                c = path[j]
+                if c == "<":
+                    depth += 1
+                elif c == ">" and path[j - 1] != "-":
+                    depth -= 1
+                    if depth == 0:
+                        break
+                j += 1
+            i = j + 1
+        else:
+            out.append(path[i])
+            i += 1
+    return "".join(out)
+
+
 def crate_inliner(bods):
     """resolve a callee path to a unique body of the same MIR dump: match on fn name and on the qualifying type name
     appearing in the candidate's signature. Ambiguous or foreign callees stay uninterpreted."""
@@ -160,7 +182,7 @@ def crate_inliner(bods):
         by_last.setdefault(re.sub(r"#\d+$", "", name).rsplit("::", 1)[-1], []).append(b)
 
     def resolve(callee, argvals):
-        c = re.sub(r"::<[^>]*(?:<[^>]*>[^>]*)*>", "", callee)  # drop generic args
+        c = strip_generics(callee)
         m = re.match(r"^(?:<(.+?) as .+?>|(.+?))::([A-Za-z_][A-Za-z0-9_]*)$", c)
         if m:
             qual, fn = (m.group(1) or m.group(2)), m.group(3)
@@ -244,3 +266,21 @@ INT_MODELS += [
 ]
 MODEL_DOC[INT_MODELS[-1][0]] = "integer min/max/wrapping/checked/saturating add & sub: their std definitions as bit-vector terms"
 MODEL_DOC[INT_MODELS[-2][0]] = "u8::is_ascii_whitespace: byte in {0x20,0x09,0x0A,0x0C,0x0D}"
+
+
+def m_mem_replace(ex, st, callee, args, dty, site):
+    """std::mem::replace(&mut dest, src) -> old value of dest"""
+    d = args[0]
+    if not isinstance(d, Ptr):
+        return NotImplemented
+    old = d.node.clone()
+    ex.write(d.node, args[1])
+    return ex.read_node(old)
+
+
+MEM_MODELS = [(r"^(std|core)::mem::replace::<.*>$", m_mem_replace)]
+MODEL_DOC[MEM_MODELS[0][0]] = "mem::replace(&mut dest, src): stores src, returns the previous value"
+
+
+TRACING_MODELS = [(r"^<Level as PartialOrd<LevelFilter>>::le$", lambda ex, st, c, a, d, s: z3.BoolVal(False))]
+MODEL_DOC[TRACING_MODELS[0][0]] = "tracing: Level <= LevelFilter is false (logging off; log statements are not the subject)"
